@@ -393,12 +393,38 @@ Proof.
       apply iter_active_occupancy. exact Hact.
 Qed.
 
+(* ================================================================== chains *)
+Lemma xform_attrs_spec : forall t x, wf_kx t x = true -> xform_attrs x t = xform_spec x t.
+Proof.
+  intros t x Hwf. destruct x as [dd|new|dd|dd l st|dd l st|dd l]; cbn [xform_attrs xform_spec].
+  - apply split_attrs_spec; exact Hwf.
+  - apply swizzle_attrs_spec; exact Hwf.
+  - apply swap_attrs_spec; exact Hwf.
+  - apply flatten_attrs_spec; exact Hwf.
+  - apply merge_attrs_spec; exact Hwf.
+  - apply unflatten_attrs_spec; exact Hwf.
+Qed.
+
+(* along a well-formed chain the carry-over blocks compute the documented re-arrangement of
+   every tensor; since the semantics is a function of the operand's attributes, a later step
+   cannot change what an earlier tensor reports *)
+Lemma chain_run_spec : forall steps acc,
+  chain_wf acc steps = true ->
+  chain_run xform_attrs acc steps = chain_run xform_spec acc steps.
+Proof.
+  induction steps as [|s steps IH]; intros acc H; [reflexivity|].
+  cbn [chain_wf chain_run] in *.
+  destruct (nth_error acc (s_src s)) as [[t|]|]; try discriminate.
+  apply andb_true_iff in H. destruct H as [H1 H2].
+  rewrite (xform_attrs_spec t (s_x s) H1). apply IH. exact H2.
+Qed.
+
 (* ================================================================== the whole checker *)
 Lemma c14_model_holds : forall c,
   c14_wf c = true -> holds c14_checker c (model c14_checker c) = true.
 Proof.
   intros c Hwf. cbn [holds model c14_checker]. unfold c14_holds. rewrite Hwf. cbn [andb].
-  destruct c as [t x|ids shape d t|op ra rb]; cbn [c14_wf] in Hwf; cbn [c14_model].
+  destruct c as [t x|ids shape d t|op ra rb|t0 data0 steps]; cbn [c14_wf] in Hwf; cbn [c14_model].
   - destruct x as [dd|new|dd|dd l st|dd l st|dd l]; cbn [xform_attrs xform_spec].
     + rewrite (split_attrs_spec _ _ Hwf). apply V_eqb_refl.
     + rewrite (swizzle_attrs_spec _ _ Hwf). apply V_eqb_refl.
@@ -408,6 +434,9 @@ Proof.
     + rewrite (unflatten_attrs_spec _ _ _ Hwf). apply V_eqb_refl.
   - apply build_holds. exact Hwf.
   - apply lazy_holds. exact Hwf.
+  - unfold wf_kc in Hwf. apply andb_true_iff in Hwf. destruct Hwf as [Hwf _].
+    apply andb_true_iff in Hwf. destruct Hwf as [_ Hch].
+    unfold kc_obs. rewrite (chain_run_spec _ _ Hch). apply V_eqb_refl.
 Qed.
 
 (* ================================================================== stand-alone clauses *)
